@@ -186,6 +186,39 @@ struct GrowthEngine : EngineBase {
           free(v);
           free(d);
         }
+    // the same adopted buffers as the destination of a move assignment from an inline source that does not fit them: whatever the vector then does
+    // (inline storage again, or a new block), a new block obtained without an explicit request must be at least 1.5 x the old capacity
+    for (uintmax_t cap = 1; cap < I::kN && cap <= 12 && !g_cut; ++cap)
+      for (uintmax_t m = cap + 1; m <= I::kN && m <= cap + 3 && !g_cut; ++m) {
+        Donor *d;
+        Vec *v, *src;
+        { MonScope mm; d = static_cast<Donor *>(malloc(sizeof(Donor))); v = static_cast<Vec *>(malloc(sizeof(Vec))); src = static_cast<Vec *>(malloc(sizeof(Vec))); memset(static_cast<void *>(v), 0xA5, sizeof(Vec)); }
+        window([&] { new (d) Donor(); });
+        window([&] { d->reserve(static_cast<SizeT>(cap)); });
+        for (uintmax_t i = 0; i + 1 < cap; ++i) { ++pay; window([&] { d->emplace_back(static_cast<int>(pay % 7), pay); }); }
+        window([&] { new (v) Vec(std::move(*d)); });
+        window([&] { new (src) Vec(); });
+        for (uintmax_t i = 0; i < m; ++i) { ++pay; window([&] { src->emplace_back(static_cast<int>(pay % 7), pay); }); }
+        if (threw) harness_fail("growth engine: adoption threw");
+        Snap before = snap_of(*v);
+        set_op("operator=(&&)", std::string("adopted:") + state_class<Vec>(before) + "|inline-source", "source-larger-than-adopted-capacity", fmt("adopted capacity=%ju source size=%ju", cap, m));
+        window([&] { *v = std::move(*src); });
+        if (threw) violation("C18", "growth.unexpected_exception", "move assignment threw");
+        else {
+          Snap s = snap_of(*v);
+          if (static_cast<uintmax_t>(v->size()) != m) violation("C18,C01", "growth.size", "move assignment from an inline source: wrong size");
+          uintmax_t want = (3 * before.cap + 1) / 2;
+          if (!s.inl && s.cap > before.cap && s.data != before.data && s.cap < want)
+            violation("C18", "growth.factor_below_1_5", fmt("move assignment made the vector allocate a new block of capacity %ju from %ju (< ceil(1.5 * old) = %ju) without an explicit reserve", s.cap, before.cap, want));
+        }
+        window([&] { v->~Vec(); });
+        window([&] { src->~Vec(); });
+        window([&] { d->~Donor(); });
+        MonScope mm;
+        free(v);
+        free(src);
+        free(d);
+      }
     if (!g_cut) end_history_ok();
   }
   template <class V_ = Vec>
